@@ -57,7 +57,7 @@ fn gen_program(rng: &mut Rng) -> Program {
         fail_at: if fail { Some(rng.below(k + 1)) } else { None },
         fail_kind: *rng.pick(&["error-make", "error-make", "missing-column", "meta-not-a-record"]),
         appends,
-        ret: *rng.pick(&["nothing", "string", "int", "float", "bool", "list", "record", "empty-string", "empty-list", "empty-record", "zero", "false"]),
+        ret: *rng.pick(&["nothing", "string", "int", "float", "bool", "list", "record", "empty-string", "empty-list", "empty-record", "zero", "false", "frame-of-another-handler", "frame-like-record"]),
         suffix: *rng.pick(&[None, None, Some(".res"), Some(".done.x")]),
         ret_ttl: *rng.pick(&[None, None, Some("head:1"), Some("ephemeral"), Some("forever")]),
     }
@@ -101,6 +101,10 @@ fn script(p: &Program, own: &str, other: &str) -> String {
         "bool" => body.push_str("    true\n"),
         "list" => body.push_str("    [1 \"a\" {x: 2}]\n"),
         "record" => body.push_str("    {a: 1, id: $frame.id}\n"),
+        // a record that looks like a frame some *other* handler appended (a handler passing on what it was given,
+        // or the result of .head/.get): it is a return value like any other
+        "frame-of-another-handler" => body.push_str("    {id: $frame.id, topic: \"up.out\", context_id: $frame.context_id, meta: {handler_id: \"03gy4klv2h02u3x987n90p9hd\", frame_id: $frame.id}}\n"),
+        "frame-like-record" => body.push_str("    {id: $frame.id, topic: \"plain\", meta: {note: \"no handler id here\"}}\n"),
         "empty-string" => body.push_str("    \"\"\n"),
         "empty-list" => body.push_str("    []\n"),
         "empty-record" => body.push_str("    {}\n"),
@@ -141,6 +145,8 @@ fn expected_ret(p: &Program, trig: &str) -> Option<Value> {
         "bool" => Some(json!(true)),
         "list" => Some(json!([1, "a", {"x": 2}])),
         "record" => Some(json!({"a": 1, "id": trig})),
+        "frame-of-another-handler" => Some(json!({"id": trig, "topic": "up.out", "context_id": "__CTX__", "meta": {"handler_id": "03gy4klv2h02u3x987n90p9hd", "frame_id": trig}})),
+        "frame-like-record" => Some(json!({"id": trig, "topic": "plain", "meta": {"note": "no handler id here"}})),
         "empty-string" => Some(json!("")),
         "empty-list" => Some(json!([])),
         "empty-record" => Some(json!({})),
@@ -288,6 +294,7 @@ fn case(srv: &mut Srv, seed: u64, res: &mut CaseResult) -> R<()> {
             }
             if let Some(want) = expected_ret(&p, &tid) {
                 let f = got[p.appends.len()];
+                let want: Value = serde_json::from_str(&want.to_string().replace("__CTX__", &f.context_id.to_string())).unwrap_or(want);
                 let want_ttl = p.ret_ttl.and_then(parse_ttl);
                 if f.ttl != want_ttl {
                     res.find(&["C15"], "return-frame-ttl-differs", json!({"case": d, "frame": f, "expected_ttl": p.ret_ttl}));
